@@ -27,7 +27,8 @@ REPO = Path(os.environ.get("VERIF_REPO", "/repo"))
 WORK = Path(os.environ.get("VERIF_WORK", str(VERIF / "work")))
 WS = WORK / "ws"
 HARNESS_DIR = VERIF / "harness"
-NSLOTS = int(os.environ.get("VERIF_SLOTS", "5"))
+NJOBS = int(os.environ.get("VERIF_JOBS", "5"))
+TARGET = WORK / "target"
 MEM_BUDGET_GB = float(os.environ.get("VERIF_MEM_GB", "54"))
 MEM_CAP_GB = {"quick": 10.0, "thorough": 24.0}
 ENV = dict(os.environ, CARGO_NET_OFFLINE="true", CARGO_TERM_COLOR="never")
@@ -178,28 +179,47 @@ def snapshot(files):
 # --------------------------------------------------------------------------------------
 # running one harness
 # --------------------------------------------------------------------------------------
-class Slot:
-    """A Kani target dir; at most one cargo-kani at a time per slot (flock)."""
+class BuildLock:
+    """cargo-kani invocations share one target dir. cargo serialises the compile itself, but the
+    driver's goto-cc/goto-instrument steps that follow run outside cargo's lock, so the whole
+    span "cargo kani started .. first CBMC started" is serialised here (cross-process flock);
+    the CBMC runs of different invocations overlap."""
 
     def __init__(self):
         self.fh = None
-        self.idx = None
+
+    def acquire(self):
+        WORK.mkdir(parents=True, exist_ok=True)
+        self.fh = open(WORK / "build.lock", "w")
+        fcntl.flock(self.fh, fcntl.LOCK_EX)
+
+    def release(self):
+        if self.fh:
+            fcntl.flock(self.fh, fcntl.LOCK_UN)
+            self.fh.close()
+            self.fh = None
 
     def __enter__(self):
-        while True:
-            for i in range(NSLOTS):
-                fh = open(WORK / f"slot-{i}.lock", "w")
-                try:
-                    fcntl.flock(fh, fcntl.LOCK_EX | fcntl.LOCK_NB)
-                    self.fh, self.idx = fh, i
-                    return WORK / f"target-{i}"
-                except BlockingIOError:
-                    fh.close()
-            time.sleep(1.0)
+        self.acquire()
+        return TARGET
 
     def __exit__(self, *a):
-        fcntl.flock(self.fh, fcntl.LOCK_UN)
-        self.fh.close()
+        self.release()
+
+
+def Slot():
+    return BuildLock()
+
+
+def _procs_of_group(pgid):
+    """[(pid, etimes, rss_kb, args)] of the processes in a process group"""
+    out = subprocess.run(["ps", "-eo", "pid=,pgid=,etimes=,rss=,args="], capture_output=True, text=True).stdout
+    res = []
+    for ln in out.splitlines():
+        p = ln.split(None, 4)
+        if len(p) == 5 and p[1] == str(pgid):
+            res.append((int(p[0]), int(p[2]), int(p[3]), p[4]))
+    return res
 
 
 def _tree_rss_kb(pgid):
@@ -293,7 +313,7 @@ def parse_kani(out):
     return r
 
 
-def kani_cmd(h, target_dir, extra=()):
+def kani_cmd(h, target_dir, extra=(), names=None):
     feat = ["--features", h.features] if h.features else []
     extra = list(extra)
     if h.cbmc_args:
@@ -301,49 +321,114 @@ def kani_cmd(h, target_dir, extra=()):
         if "--cbmc-args" in extra:
             extra += h.cbmc_args.split()
         else:
-            extra += ["-Z", "unstable-options", "--cbmc-args", *h.cbmc_args.split()]
-    return ["cargo", "kani", "-p", h.crate, *feat, "-Z", "stubbing", "--harness", h.name,
+            extra += ["--cbmc-args", *h.cbmc_args.split()]
+    hs = []
+    for n in (names or [h.name]):
+        hs += ["--harness", n]
+    return ["cargo", "kani", "-p", h.crate, *feat, "-Z", "stubbing", "-Z", "unstable-options", *hs,
             "--target-dir", str(target_dir), *extra]
 
 
-def run_harness(h, tier, logdir):
-    cap = h.cap
-    mem = h.mem or MEM_CAP_GB[tier]
+def group_key(h):
+    return (h.crate, h.features, h.cbmc_args)
+
+
+def run_group(hs, tier, logdir):
+    """One cargo-kani invocation for all harnesses of a property that live in the same crate
+    (same features, same extra CBMC arguments): one compile, CBMC runs in parallel (-j),
+    per-harness verdicts in per-harness files. Caps are enforced per CBMC process."""
     t0 = time.time()
-    with Slot() as tdir:
-        logfile = logdir / f"{h.name}.log"
-        # phase 1: compile the crate and generate the harness's goto program (not under the
-        # solver's time cap: a cold slot builds the whole dependency tree here)
-        b0 = time.time()
-        bstatus, bout, brc, _ = run_cmd(kani_cmd(h, tdir, ["--only-codegen"]), WS, 5400, 40,
-                                        logdir / f"{h.name}.build.log")
-        build_s = time.time() - b0
-        if bstatus != "ok" or brc != 0:
-            status, out, rc, peak = bstatus, bout, brc, 0.0
-        else:
-            # phase 2: symbolic execution + SAT, under the harness's caps
-            status, out, rc, peak = run_cmd(kani_cmd(h, tdir), WS, cap, mem, logfile)
-    res = parse_kani(out)
-    res.update(name=h.name, wall_s=round(time.time() - t0, 1), run_status=status, rc=rc,
-               peak_rss_gb=round(peak, 2), log=str(logfile), build_s=round(build_s, 1))
-    if status != "ok":
-        res["outcome"] = "inconclusive"
-        res["reason"] = f"{status} (cap {cap}s / {mem} GB)"
-    elif res["verdict"] == "SUCCESSFUL" and not res["problems"]:
-        if res["covers"] is not None and res["covers_sat"] != res["covers"]:
+    h0 = hs[0]
+    glog = logdir / f"group-{h0.crate}-{abs(hash(group_key(h0))) % 10000}.log"
+    resdir = TARGET / "result_output_dir"
+    for h in hs:
+        for f in resdir.glob(f"*::{h.name}") if resdir.exists() else []:
+            f.unlink()
+    jobs = max(1, min(NJOBS, len(hs)))
+    cmd = kani_cmd(h0, TARGET, ["-j", str(jobs), "--output-format", "terse", "--output-into-files"],
+                   names=[h.name for h in hs])
+    lock = BuildLock()
+    lock.acquire()
+    killed = {}
+    peak = {h.name: 0.0 for h in hs}
+    started = {}
+    build_s = None
+    with open(glog, "w") as lf:
+        p = subprocess.Popen(cmd, cwd=WS, stdout=lf, stderr=subprocess.STDOUT, env=ENV, start_new_session=True)
+        while True:
+            try:
+                p.wait(timeout=2)
+                break
+            except subprocess.TimeoutExpired:
+                pass
+            procs = _procs_of_group(p.pid)
+            cb = [(pid, et, rss, args) for pid, et, rss, args in procs if args.startswith("cbmc ")]
+            if lock.fh is not None:
+                txt = glog.read_text(errors="replace") if glog.exists() else ""
+                if cb or "Checking harness" in txt:
+                    build_s = time.time() - t0
+                    lock.release()
+            for pid, et, rss, args in cb:
+                h = next((x for x in hs if (x.name + ".out") in args), None)
+                if h is None:
+                    continue
+                peak[h.name] = max(peak[h.name], rss / 1024 / 1024)
+                started.setdefault(h.name, time.time() - et)
+                mem = h.mem or MEM_CAP_GB[tier]
+                why = None
+                if et > h.cap:
+                    why = f"timeout (cap {h.cap}s)"
+                elif rss > mem * 1024 * 1024:
+                    why = f"out of memory (cap {mem} GB)"
+                if why and h.name not in killed:
+                    killed[h.name] = why
+                    try:
+                        os.kill(pid, signal.SIGKILL)
+                    except ProcessLookupError:
+                        pass
+            if time.time() - t0 > 3 * 3600:
+                try:
+                    os.killpg(p.pid, signal.SIGKILL)
+                except ProcessLookupError:
+                    pass
+    lock.release()
+    gout = glog.read_text(errors="replace")
+    compile_err = None
+    if "error: could not compile" in gout or re.search(r"^error(\[E\d+\])?:", gout, re.M):
+        m = re.search(r"^error", gout, re.M)
+        compile_err = gout[m.start():m.start() + 1500] if m else "compile error"
+    results = []
+    for h in hs:
+        f = next(iter(resdir.glob(f"*::{h.name}")), None) if resdir.exists() else None
+        out = f.read_text(errors="replace") if f else ""
+        hlog = logdir / f"{h.name}.log"
+        hlog.write_text(out if out else gout[-20000:])
+        res = parse_kani(out)
+        res.update(name=h.name, wall_s=round(time.time() - t0, 1), rc=p.returncode,
+                   peak_rss_gb=round(peak[h.name], 2), log=str(hlog), build_s=round(build_s or 0, 1))
+        if h.name in killed:
+            res["outcome"], res["reason"] = "inconclusive", killed[h.name]
+        elif not out:
             res["outcome"] = "inconclusive"
-            res["reason"] = f"vacuity witness missing: {res['covers_sat']} of {res['covers']} covers satisfied"
-        elif h.covers >= 0 and (res["covers"] or 0) < h.covers:
-            res["outcome"] = "inconclusive"
-            res["reason"] = f"expected >= {h.covers} cover witnesses, saw {res['covers']}"
+            res["reason"] = ("cannot attach / compile error: " + compile_err.splitlines()[0]) if compile_err else \
+                "no verdict written (harness not found or driver failed); see " + str(glog)
+        elif res["verdict"] == "SUCCESSFUL" and not res["problems"]:
+            if res["covers"] is not None and res["covers_sat"] != res["covers"]:
+                res["outcome"] = "inconclusive"
+                res["reason"] = f"vacuity witness missing: {res['covers_sat']} of {res['covers']} covers satisfied"
+            elif h.covers >= 0 and (res["covers"] or 0) < h.covers:
+                res["outcome"] = "inconclusive"
+                res["reason"] = f"expected >= {h.covers} cover witnesses, saw {res['covers']}"
+            else:
+                res["outcome"] = "pass"
+        elif res["verdict"] == "FAILED" and not res["problems"]:
+            res["outcome"] = "fail"
         else:
-            res["outcome"] = "pass"
-    elif res["verdict"] == "FAILED" and not res["problems"]:
-        res["outcome"] = "fail"
-    else:
-        res["outcome"] = "inconclusive"
-        res["reason"] = "; ".join(res["problems"]) or f"no verdict (rc={rc})"
-    return res
+            res["outcome"] = "inconclusive"
+            res["reason"] = "; ".join(res["problems"]) or "no verdict"
+        res["harness"] = h
+        results.append(res)
+    return results
 
 
 # --------------------------------------------------------------------------------------
@@ -357,8 +442,8 @@ def _gen_playback(h, logdir, sliced):
     if sliced:
         # Kani drops --slice-formula in playback mode; with big arrays (C17's 64 KiB slot) the
         # unsliced query runs out of memory, so the sliced trace is tried first.
-        extra += ["-Z", "unstable-options", "--cbmc-args", "--slice-formula"]
-    with Slot() as tdir:
+        extra += ["--cbmc-args", "--slice-formula"]
+    with BuildLock() as tdir:
         status, out, rc, _ = run_cmd(
             kani_cmd(h, tdir, extra), WS, min(h.cap * 2, 1500), MEM_CAP_GB["thorough"],
             logdir / f"{h.name}.playback-gen-{'sliced' if sliced else 'full'}.log")
@@ -533,20 +618,19 @@ def check_property(prop, tier, seed, only=None, jobs=None):
     if needed_missing:
         log(f"INCONCLUSIVE property={prop}: cannot attach, missing in /repo: {needed_missing}")
     run_list = [h for h in mine if h.attach not in missing]
-    biggest = max([h.mem or MEM_CAP_GB[tier] for h in run_list] or [MEM_CAP_GB[tier]])
-    jobs = jobs or max(1, min(NSLOTS, len(run_list), int(MEM_BUDGET_GB // biggest)))
-    # long harnesses first, so the tail of the schedule is short
-    run_list.sort(key=lambda h: -h.cap)
-    log(f"[{prop}] tier={tier} seed={seed} harnesses={[h.name for h in run_list]} parallel={jobs}")
-    with ThreadPoolExecutor(max_workers=jobs) as ex:
-        futs = {ex.submit(run_harness, h, tier, logdir): h for h in run_list}
-        for fut, h in futs.items():
-            res = fut.result()
-            res["harness"] = h
-            results.append(res)
-            log(f"[{prop}] {h.name}: {res['outcome']} checks={res['checks']} failed={res['failed']} "
-                f"covers={res['covers_sat']}/{res['covers']} solver={res['solver_s']}s wall={res['wall_s']}s "
-                f"rss={res['peak_rss_gb']}GB {res.get('reason', '')}")
+    groups = {}
+    for h in run_list:
+        groups.setdefault(group_key(h), []).append(h)
+    log(f"[{prop}] tier={tier} seed={seed} harnesses={[h.name for h in run_list]} groups={len(groups)}")
+    with ThreadPoolExecutor(max_workers=max(1, min(2, len(groups)))) as ex:
+        futs = [ex.submit(run_group, hs, tier, logdir) for hs in groups.values()]
+        for fut in futs:
+            for res in fut.result():
+                h = res["harness"]
+                results.append(res)
+                log(f"[{prop}] {h.name}: {res['outcome']} checks={res['checks']} failed={res['failed']} "
+                    f"covers={res['covers_sat']}/{res['covers']} solver={res['solver_s']}s "
+                    f"rss={res['peak_rss_gb']}GB {res.get('reason', '')}")
     exit_code = 0
     violations = 0
     known_lines = []
@@ -656,45 +740,29 @@ def write_evidence(prop, tier, seed, results, missing, wall, violations, known_l
 
 
 def setup():
-    """Warm every Kani target dir: each slot builds the dependency tree of every crate that
-    carries harnesses (one --only-codegen run per crate), slots in parallel. Target dirs are
-    not copied between slots: a copied cargo target dir intermittently failed with
-    "can't find crate" (absolute paths in build-script outputs)."""
+    """Warm the shared Kani target dir: build the dependency tree of every crate that carries
+    harnesses (one --only-codegen run per crate and feature set)."""
     t0 = time.time()
     files, harnesses = scan_harnesses()
     missing = snapshot(files)
     if missing:
         log(f"setup: attach targets missing in /repo: {missing}")
-    crates = []
+    seen = {}
     for h in harnesses:
-        if h.crate not in [c for c, _ in crates] and h.attach not in missing:
-            crates.append((h.crate, h))
+        if h.attach not in missing:
+            seen.setdefault((h.crate, h.features), h)
     logdir = WORK / "logs" / "setup"
     logdir.mkdir(parents=True, exist_ok=True)
-    env_jobs = str(max(2, (os.cpu_count() or 8) // 2))
-    ENV["CARGO_BUILD_JOBS"] = env_jobs
     failed = []
-
-    def warm(i):
-        tdir = WORK / f"target-{i}"
-        fh = open(WORK / f"slot-{i}.lock", "w")
-        fcntl.flock(fh, fcntl.LOCK_EX)
-        try:
-            for crate, h in crates:
-                status, out, rc, _ = run_cmd(kani_cmd(h, tdir, ["--only-codegen"]), WS, 5400, 40,
-                                             logdir / f"slot{i}-{crate}.log")
-                log(f"setup: slot {i} {crate}: {status} rc={rc} ({time.time() - t0:.0f}s)")
-                if rc != 0:
-                    failed.append((i, crate))
-                    log("\n".join(out.splitlines()[-25:]))
-        finally:
-            fcntl.flock(fh, fcntl.LOCK_UN)
-            fh.close()
-
-    with ThreadPoolExecutor(max_workers=NSLOTS) as ex:
-        list(ex.map(warm, range(NSLOTS)))
-    ENV.pop("CARGO_BUILD_JOBS", None)
-    log(f"setup: done in {time.time() - t0:.0f}s, slots={NSLOTS}, failed={failed}")
+    for (crate, feats), h in seen.items():
+        with BuildLock() as tdir:
+            status, out, rc, _ = run_cmd(kani_cmd(h, tdir, ["--only-codegen"]), WS, 5400, 40,
+                                         logdir / f"{crate}-{feats or 'default'}.log")
+        log(f"setup: {crate} [{feats}]: {status} rc={rc} ({time.time() - t0:.0f}s)")
+        if rc != 0:
+            failed.append(crate)
+            log("\n".join(out.splitlines()[-25:]))
+    log(f"setup: done in {time.time() - t0:.0f}s, failed={failed}")
     return 1 if failed else 0
 
 
@@ -719,7 +787,7 @@ def main(argv):
         for crate in a.only or sorted({h.crate for h in harnesses}):
             hs = [h for h in harnesses if h.crate == crate]
             feats = sorted({h.features for h in hs if h.features})
-            with Slot() as tdir:
+            with BuildLock() as tdir:
                 cmd = ["cargo", "kani", "-p", crate, *(["--features", ",".join(feats)] if feats else []), "-Z", "stubbing",
                        "-Z", "unstable-options", "--no-codegen", "--target-dir", str(tdir)]
                 (WORK / "logs").mkdir(exist_ok=True)
